@@ -1034,7 +1034,9 @@ func checkSignature(algo SignatureAlgorithm, signed, signature []byte, publicKey
 				X:     pub.X,
 				Y:     pub.Y,
 			}
-			if !sm2.Sm2Verify(sm2pub, signed, nil, ecdsaSig.R, ecdsaSig.S) {
+			// PublicKey.Verify parses the signature strictly (a DER SEQUENCE of exactly
+			// two INTEGERs); asn1.Unmarshal above ignores extra elements in the SEQUENCE.
+			if !sm2pub.Verify(signed, signature) {
 				return errors.New("x509: SM2 verification failure")
 			}
 		default:
